@@ -94,6 +94,15 @@ Definition c_pol : bool :=
           (negb (avail m s a) || nltb (Qfin s a) (mx - band_lo mx)))
     end).
 
+(* placeholder states (not absorbing, can never reach an absorbing state): the policy row is still a
+   distribution over the state's own available actions (a structural clause: it does not depend on convergence) *)
+Definition c_polu : bool :=
+  forallbn (nS m) (fun s =>
+    if masked m s && negb (absorbing m s) then
+       forallbn (nA m) (fun a => if insupp s a then avail m s a else true) &&
+       ncloseb (ptol t) (sumf (nA m) (oPi o s)) n1
+    else true).
+
 Definition c_init : bool :=
   ncloseb (itol t) (oInit o) (sumf (nS m) (fun s => init m s * oV o s)).
 
@@ -128,7 +137,7 @@ Definition c_N (N : nat -> T) : bool :=
 
 Definition c01_undisc_check (N : list T) : list bool := [c_nonpos; c_rnonpos; c_N (untab N)].
 
-Definition c01_check : list bool := [wfb; c_abs; c_mask; c_res; c_q; c_pol; c_init].
+Definition c01_check : list bool := [wfb; c_abs; c_mask; c_res; c_q; c_pol; c_init; c_polu].
 
 (* ------------------------------------------------------------------ *)
 (* mirror models of the loops                                          *)
